@@ -45,7 +45,7 @@ func TestC19Patcher(t *testing.T) {
 		c := recPatch.Begin()
 		oldP := drawName(t, "old", 0, 3)
 		var newP name
-		switch rapid.IntRange(0, 5).Draw(t, "newkind") {
+		switch rapid.IntRange(0, 9).Draw(t, "newkind") {
 		case 0:
 			newP = ext(oldP)
 		case 1:
